@@ -374,11 +374,25 @@ func (r *runner) scanWrites(ws []puttap.Write) []string {
 				if n.secret {
 					kind = "secret"
 				}
-				out = append(out, fmt.Sprintf("C04 key=put-%s.%s: Put(%s/%x) carries %s in the clear", kind, n.class, strings.Join(w.Path, "/"), w.Key[:min(8, len(w.Key))], n.what))
+				out = append(out, fmt.Sprintf("C04 key=put-%s.%s: Put(%s/%x) carries %s in the clear", kind, n.class, pathStr(w.Path), w.Key[:min(8, len(w.Key))], n.what))
 			}
 		}
 	}
 	return out
+}
+
+func pathStr(p []string) string {
+	var out []string
+	for _, e := range p {
+		if len(e) == 8 && len(out) == 1 && out[0] == "scope" {
+			out = append(out, scopeOfKey(e))
+		} else if len(e) == 4 && len(out) > 0 && out[len(out)-1] == "addracctidx" {
+			out = append(out, fmt.Sprint(u32([]byte(e))))
+		} else {
+			out = append(out, e)
+		}
+	}
+	return strings.Join(out, "/")
 }
 
 // ---- result rendering ----------------------------------------------------------------------------------------
